@@ -136,6 +136,7 @@ type FnTrans struct {
 	curState *BState
 	curEnv   *Env
 	idxCands []Val
+	clauseCandSet map[string]bool // index terms contract clauses read slices at
 	pureKnown, pureVal bool
 	storeSites map[*ssa.Store][]string
 	eventSites map[eventKey][]string // channel operations named by the contract
